@@ -513,6 +513,15 @@ func worker(idx, n int, quick bool, deadline time.Time) {
 				}
 			}
 			files := []string{""}
+			// a file whose name is a BUILD file name only up to case, in a directory WITHOUT a BUILD file: not a package
+			// (quick tier: trees of at most two directories)
+			for i, h := range holders {
+				if !cur[i] && (!quick || len(dirs) <= 2) {
+					for _, fn := range []string{"build", "Build.plz"} {
+						files = append(files, filepath.Join(h, fn))
+					}
+				}
+			}
 			for _, h := range holders {
 				if (quick || len(dirs) > 3) && mask != 1<<len(holders)-1 {
 					// quick tier, and 4-directory trees of the thorough tier: the plain-file dimension is combined with
